@@ -125,7 +125,7 @@ func run(e *entryInfo, charset string, chunks [][]byte) (result, error) {
 	select {
 	case o := <-done:
 		return o.r, o.err
-	case <-time.After(10 * time.Second):
+	case <-pbt.After(10 * time.Second):
 		return result{}, fmt.Errorf("decoding stalled: no result within 10s")
 	}
 }
@@ -573,7 +573,7 @@ func timerProp(c TimerCase) error {
 	}
 	tty.Feed(c.Data)
 	var got []inref.Ev
-	deadline := time.Now().Add(3 * time.Second)
+	deadline := time.Now().Add(pbt.Scaled(3 * time.Second))
 	for len(got) < len(want.evs) && time.Now().Before(deadline) {
 		if s.HasPendingEvent() {
 			got = append(got, inref.From(s.PollEvent()))
@@ -739,7 +739,7 @@ func liveProp(c LiveCase) error {
 func TestProp(t *testing.T) {
 	defer pbt.Recover(t)
 	loadEntries()
-	pbt.Describe("partition: rapid byte strings (token grammar: keys of the entry's real key table, SGR/X11 mouse reports, paste brackets, focus reports, OSC 52 replies with BEL/ST and valid/invalid base64, UTF-8 text, lone ESC, control and invalid bytes, sequence prefixes; mutated tokens; arbitrary bytes) x registered entries x charsets x read partitions (incl. every byte alone), decoded by the production collectEventsFromInput through the synchronous verif hook: one read + expiry vs the partition + expiry must give equal events, zero leftover, no panic, no stall; embed: text A + one complete recognised token + text B with expected events computed independently (runes of A, the token's event, runes of B); epochs: several input segments on one decoder, each followed by an expiry of the escape timeout, must decode like the same segments on fresh decoders (no bytes and no modifier state survive an expiry); live-reads: complete tokens (more than both internal queues hold) delivered in many tty reads through a real screen with its goroutines while the application defers polling, compared with the synchronous decode of the whole string; timer-flush: inputs ending in an incomplete sequence sent through a real screen (fake tty, real goroutines): once the production 50 ms escape timer expires the buffered bytes must come out exactly as the expiring scan of the hook delivers them. Non-trivial = >= 2 chunks with a cut strictly inside a multi-byte token; distinct = hash of the case.",
+	pbt.Describe("partition: rapid byte strings (token grammar: keys of the entry's real key table, SGR/X11 mouse reports, paste brackets, focus reports, OSC 52 replies with BEL/ST and valid/invalid base64, UTF-8 text, lone ESC, control and invalid bytes, sequence prefixes; mutated tokens; arbitrary bytes) x registered entries x charsets x read partitions (incl. every byte alone), decoded by the production collectEventsFromInput through the synchronous verif hook: one read + expiry vs the partition + expiry must give equal events, zero leftover, no panic, no stall; embed: text A + one complete recognised token + text B with expected events computed independently (runes of A, the token's event, runes of B); epochs: several input segments on one decoder, each followed by an expiry of the escape timeout, must decode like the same segments on fresh decoders (no bytes and no modifier state survive an expiry); stale-timer: a key sequence split across reads while the application does not poll (read 1 ends inside a sequence, read 2 completes it, overfills the event queue and ends inside another sequence, read 3 completes that; all three arrive within 25 ms, the application resumes polling 130 ms later): no escape timeout lies between any two reads, so the events must be those of the concatenated stream (a wrong decode is only believed after three plays in a row; plays the machine was too slow for are discarded and counted); live-reads: complete tokens (more than both internal queues hold) delivered in many tty reads through a real screen with its goroutines while the application defers polling, compared with the synchronous decode of the whole string; timer-flush: inputs ending in an incomplete sequence sent through a real screen (fake tty, real goroutines): once the production 50 ms escape timer expires the buffered bytes must come out exactly as the expiring scan of the hook delivers them. Non-trivial = >= 2 chunks with a cut strictly inside a multi-byte token; distinct = hash of the case.",
 		"no escape timeout expires between the chunks of one case (the hook scans synchronously); one expiring scan ends every case",
 		"what a malformed sequence decodes to is unspecified: only partition independence, zero leftover and no panic/stall apply to it",
 		"a scan that does not return within 10 s counts as a stall")
@@ -754,6 +754,7 @@ func TestProp(t *testing.T) {
 			}
 			return false
 		}})
+	pbt.Check(t, "stale-timer", pbt.Pick(24, 400), pbt.Spec[StaleCase]{Gen: genStale, Prop: staleProp})
 	pbt.Check(t, "live-reads", pbt.Pick(120, 3000), pbt.Spec[LiveCase]{Gen: genLive, Prop: liveProp,
 		NonTrivial: func(c LiveCase) bool { return len(c.Tokens) > 25 && len(c.PerRd) > 3 && c.Defer }})
 	pbt.Check(t, "embed", pbt.Pick(15000, 200000), pbt.Spec[EmbedCase]{Gen: genEmbed, Prop: embedProp,
